@@ -49,6 +49,13 @@ claim("C17", "other",
       "Abstract execution of Execute over element outcomes {true,false,error} with identity checks: nil filter first and identity; lists visited Index(0),Index(1),... until i<Len() is false; maps by MapIndex(MapKeys()[n]); evaluated value is Interface() of exactly the item appended/stored under its own key, only on (true,nil); result rooted at MakeSlice(input type | SliceOf(Elem) for arrays, 0, .)/MakeMap(input type); first error => (nil, err); non-containers incl. nil reach the error return without a panicking reflect call; Filter constructed only by CreateFilter. Does not decide that Evaluate itself is right.",
       "§4 C17", "abstract execution over element outcomes + def-use identity checks + KindAI panic sites on Execute")
 
+claim("C06", "other",
+      "Abstract execution of the collection evaluator over {any,all} x {body true/false/error} (three loop visits) + symbolic append-chain analysis: canonical ascending element loop; body evaluated exactly once per element against the root datum; first decisive element / first error ends the fold, exhaustion/emptiness/absence give all=true any=false; per-iteration fresh option slice = incoming options then new bindings; bindings follow the statement's table and exist iff the name is set; alias paths freshly made (collection path + base-10 index / key); non-lists and non-string-keyed maps rejected before evaluation; lookup scans innermost-first, re-reads the first path part after each alias expansion, expands into a new slice; WithLocalVariable only pushes. Does not decide equivalence with the unrolled expression on values.",
+      "§4 C06", "abstract execution over fold outcomes + symbolic append-chain/binding-table analysis + SSA loop-shape checks")
+claim("C14", "other",
+      "Every source of an unordered sequence (MapKeys, MapRange, range over map, maps.Keys/Values) in module functions reachable from the API is enumerated and must be in a safe shape: sorted in place right after being stored / sorted by a call dominating every element access (sort.Slice's less must capture only the sorted slice and compare the same function of elements i and j strictly); or consumed by a loop with no carried value, error-only early exits and commuting effects; or collected then sorted. Then no outcome depends on visiting order. Order dependence inside pointerstructure is trusted.",
+      "§4 C14", "unordered-iteration census with per-source shape decision (dominance, closure capture analysis, in-loop return classification)")
+
 def main():
     checks, nas = [], []
     for id in sorted(P):
